@@ -3,9 +3,11 @@ package main
 
 import (
 	"flag"
+
 	"fmt"
 	"os"
 	"strconv"
+	"verif/layerb"
 )
 
 func main() {
@@ -33,6 +35,7 @@ func main() {
 		fmt.Fprintln(os.Stderr, "usage: vcheck -p Cxx [-tier quick|thorough]")
 		os.Exit(2)
 	}
+	layerb.Seed = seed
 	opt := &Options{Prop: *prop, Tier: *tier, Repo: *repo, Seed: seed, Only: *only, Verbose: *verbose, Keep: *keep}
 	os.Exit(runProperty(opt))
 }
